@@ -164,6 +164,20 @@ m("c16-luba-late-raw-kept", "C16", SER, "                while not self._queue_r
 SEEDS = {"C07": 6000, "C08": 60000, "C09": 1500, "C10": 1500, "C13": 40000, "C14": 40000, "C15": 12000,
          "C16": 12000, "C17": 240, "C18": 5400, "C19": 20000, "C20": 12000}
 
+# ---- added with the round-2 strengthenings (cancelled sends, generators that misbehave on close, value-level writes, ...)
+m("c09-unlatch-without-latch", "C09", LOC, "        if use_latch and self.has_latch:\n            # The reads above have reset the unit's write enable state;",
+  "        if self.has_latch:\n            # The reads above have reset the unit's write enable state;")
+m("c09-stop-at-first-silent", "C09", LOC, "            else:\n                raw_data.append(None)\n", "            else:\n                break\n")
+m("c10-tmask-is-mask", "C10", LOC, "            return cls.tmask\n        if not isinstance(value, int):", "            return cls.mask\n        if not isinstance(value, int):")
+m("c10-string-no-nul", "C10", LOC, "            raw = raw + b'\\x00'", "            pass")
+m("c15-hid-send-lock-kept-on-cancel", "C15", HID,
+  "            return response\n        finally:\n            if not in_transaction:\n                self.transaction_lock.release()\n\n    async def power_supply",
+  "        except BaseException as e:\n            if not in_transaction and not isinstance(e, asyncio.CancelledError):\n                self.transaction_lock.release()\n            raise\n        if not in_transaction:\n            self.transaction_lock.release()\n        return response\n\n    async def power_supply")
+m("c15-hid-close-before-release", "C15", HID, "            self.transaction_lock.release()\n            seq.close()", "            seq.close()\n            self.transaction_lock.release()")
+m("c16-hasseb-stale-response-not-cleared", "C16", HID, "            # that become available in the future.\n            self._response_available.clear()\n", "            # that become available in the future.\n")
+m("c20-tridonic-watch-only-when-subscribed", "C20", HID, "        elif data[0] == self._MODE_OBSERVE:\n            # Something happened that we didn't initiate with a command\n            self._bus_watch_data.append(data)\n            self._bus_watch_data_available.set()",
+  "        elif data[0] == self._MODE_OBSERVE:\n            # Something happened that we didn't initiate with a command\n            if self.bus_traffic._callbacks:\n                self._bus_watch_data.append(data)\n                self._bus_watch_data_available.set()")
+
 
 def run_one(job):
     mid, prop, path, old, new = job
